@@ -259,8 +259,31 @@ func runBig(f *Flags) error {
 						}
 					}
 					if pos >= 0 && pos+4 <= len(ob) {
+						type lt struct {
+							L    uint32
+							tail int
+						}
+						var combos []lt
 						for _, L := range []uint32{65535, 65536, 1 << 20, 1<<20 + 1, 1 << 31, 0xffffffff} {
 							for _, tail := range []int{0, es, 70000} {
+								combos = append(combos, lt{L, tail})
+							}
+						}
+						// counts within a few bytes of the TOTAL input length (a decoder comparing the
+						// count with the whole buffer instead of the remaining bytes differs here)
+						for _, L := range []int{ml + 1, ml + 7, 600, 4096, 65536} {
+							if L <= 0 {
+								continue
+							}
+							for k := -2; k <= 6; k++ {
+								if tail := L + k - (pos + 4); tail >= 0 {
+									combos = append(combos, lt{uint32(L), tail})
+								}
+							}
+						}
+						for _, cb := range combos {
+							L := cb.L
+							for _, tail := range []int{cb.tail} {
 								bs := append(append([]byte{}, ob[:pos]...), 0, 0, 0, 0)
 								binary.LittleEndian.PutUint32(bs[pos:], L)
 								bs = append(bs, make([]byte, tail)...)
